@@ -617,7 +617,7 @@ def ls_QConv2DBatchnorm : LSpec :=
       ⟨"kernel_size", .lit, (.lit .none), true, true, true⟩,
       ⟨"strides", .lit, (.lit (.list [(.num (1 : Rat)), (.num (1 : Rat))])), false, true, true⟩,
       ⟨"padding", .lit, (.lit (.str "valid")), false, true, true⟩,
-      ⟨"data_format", (.fixed (.str "channels_last")), (.lit (.str "channels_last")), false, true, true⟩,
+      ⟨"data_format", .lit, (.lit .none), false, true, true⟩,
       ⟨"dilation_rate", .lit, (.lit (.list [(.num (1 : Rat)), (.num (1 : Rat))])), false, true, true⟩,
       ⟨"activation", .act, (.act .none), false, true, true⟩,
       ⟨"use_bias", .lit, (.lit (.bool true)), false, true, true⟩,
